@@ -746,3 +746,35 @@ pub fn jf(x: f32) -> Value {
         json!(format!("{x}"))
     }
 }
+
+
+/// A `Read` over a byte slice that hands out at most `max` bytes per call and, when `intr` is set, answers every fifth
+/// call with `ErrorKind::Interrupted` (both are within `Read`'s contract; a correct consumer sees the same bytes).
+pub struct ChunkReader<'a> {
+    pub data: &'a [u8],
+    pub pos: usize,
+    pub max: usize,
+    pub intr: bool,
+    pub calls: usize,
+}
+
+impl<'a> ChunkReader<'a> {
+    /// parameters derived from the content, so that a case replays identically
+    pub fn for_content(data: &'a [u8]) -> ChunkReader<'a> {
+        let h = hash_of(&data);
+        ChunkReader { data, pos: 0, max: 1 + (h % 7) as usize, intr: (h >> 8) & 1 == 1, calls: 0 }
+    }
+}
+
+impl std::io::Read for ChunkReader<'_> {
+    fn read(&mut self, buf: &mut [u8]) -> std::io::Result<usize> {
+        self.calls += 1;
+        if self.intr && self.calls % 5 == 2 {
+            return Err(std::io::ErrorKind::Interrupted.into());
+        }
+        let n = buf.len().min(self.max).min(self.data.len() - self.pos);
+        buf[..n].copy_from_slice(&self.data[self.pos..self.pos + n]);
+        self.pos += n;
+        Ok(n)
+    }
+}
